@@ -19,6 +19,7 @@
 #include <dirent.h>
 #include <signal.h>
 #include <sys/mman.h>
+#include <sys/time.h>
 #include <sys/wait.h>
 #include <unistd.h>
 #include <atomic>
@@ -118,6 +119,14 @@ static std::vector<char> apply(const std::vector<char> &b, const Fault &f, const
 }
 static std::string fdesc(const Fault &f) { return std::to_string(f.kind) + ":" + std::to_string(f.off) + ":" + std::to_string(f.a) + ":" + std::to_string(f.b); }
 
+// A probe may burn 20 s of CPU time (ITIMER_PROF: load on the machine does not count) and, as a backstop, 300 s of wall time; either limit ends the child
+// with a signal that the parent reads as "did not return".
+static void arm_limits(int cpu_s) {
+  struct itimerval it; memset(&it, 0, sizeof it); it.it_value.tv_sec = cpu_s;
+  setitimer(ITIMER_PROF, &it, nullptr);
+  alarm(cpu_s == 0 ? 0 : 300);
+}
+static bool is_timeout_signal(int st) { return WIFSIGNALED(st) && (WTERMSIG(st) == SIGALRM || WTERMSIG(st) == SIGPROF); }
 static bool g_identity_only = false;   // model rows: probe every stream as it is
 static std::vector<Fault> enumerate(const std::vector<char> &b, int level, uint64_t seed, size_t index, size_t ncorpus, const std::string &name = "") {
   std::vector<Fault> fs;
@@ -286,10 +295,10 @@ static int run_sweep(const std::string &dir, int shard, int nshards, int level, 
         if (getenv("VERIF_RECORDS")) { FILE *ef = freopen(errpath.c_str(), "w", stderr); (void)ef; setvbuf(stderr, nullptr, _IONBF, 0); }
         for (long i = start; i < (long)fs.size(); ++i) {
           g_sh->idx = i;
-          alarm(20);
+          arm_limits(20);
           probe(names[si], apply(b, fs[i], &all), fs[i], (size_t)i, want_allocs, base_np);
         }
-        alarm(0);
+        arm_limits(0);
         fflush(out.f);
         _exit(0);
       }
@@ -297,7 +306,7 @@ static int run_sweep(const std::string &dir, int shard, int nshards, int level, 
       waitpid(pid, &st, 0);
       if (WIFEXITED(st) && WEXITSTATUS(st) == 0) break;
       const long at = g_sh->idx.load();
-      const bool timeout = WIFSIGNALED(st) && WTERMSIG(st) == SIGALRM;
+      const bool timeout = is_timeout_signal(st);
       // what the sanitizer / runtime said (first report line), to classify the exit
       std::string report;
       bool oom = false;
@@ -769,10 +778,10 @@ static int run_hostile(const std::string &rowsfile, int shard, int nshards) {
       if (getenv("VERIF_RECORDS")) { FILE *ef = freopen(errpath.c_str(), "w", stderr); (void)ef; setvbuf(stderr, nullptr, _IONBF, 0); }
       for (long i = start; i < (long)lines.size(); ++i) {
         g_sh->idx = i;
-        alarm(20);
+        arm_limits(20);
         probe_eb(vrt::jparse_line(lines[i]), (long)i * nshards + shard, st);
       }
-      alarm(0);
+      arm_limits(0);
       fflush(out.f);
       _exit(0);
     }
@@ -780,7 +789,7 @@ static int run_hostile(const std::string &rowsfile, int shard, int nshards) {
     waitpid(pid, &stt, 0);
     if (WIFEXITED(stt) && WEXITSTATUS(stt) == 0) break;
     const long at = g_sh->idx.load();
-    const bool timeout = WIFSIGNALED(stt) && WTERMSIG(stt) == SIGALRM;
+    const bool timeout = is_timeout_signal(stt);
     bool oom = false;
     const std::string report = first_report(errpath, &oom);
     if (timeout) ++timeouts; else if (!oom) ++crashes;
@@ -844,7 +853,7 @@ static int run_nest(const std::string &stream) {
     if (normal) {
       out.begin("Nest").s("stream", stream).i("depth", depth).i("len", (long long)bytes.size()).b("ok", WEXITSTATUS(st) == 40).end();
     } else {
-      const bool timeout = WIFSIGNALED(st) && WTERMSIG(st) == SIGALRM;
+      const bool timeout = is_timeout_signal(st);
       bool oom = false;
       const std::string report = first_report(errpath, &oom);
       if (timeout) ++timeouts; else ++crashes;
